@@ -201,17 +201,7 @@ impl Kill {
     }
 }
 
-fn history_with_sessions() -> Vec<Version> {
-    let v = |session, serial, objs: &[(u64, u64)]| Version {
-        session, serial, objs: objs.iter().cloned().collect()
-    };
-    vec![
-        v(0, 8, &[(0, 20), (1, 21), (2, 22)]),
-        v(0, 9, &[(0, 20), (1, 23), (3, 24)]),
-        v(1, 2, &[(0, 20), (2, 25)]),
-        v(1, 3, &[(0, 26), (2, 25), (3, 27)]),
-    ]
-}
+fn history_with_sessions() -> Vec<Version> { session_history() }
 
 fn fixed_crashes() -> Vec<Crash> {
     let b = base_history();
@@ -224,10 +214,12 @@ fn fixed_crashes() -> Vec<Crash> {
         c(&b, &[], 0, &[0, 2], 5),       // first snapshot
         c(&b, &[0], 1, &[1, 3], 5),      // one delta
         c(&b, &[0], 3, &[3, 4], 5),      // three deltas
-        c(&b, &[0], 2, &[4], 5),         // two deltas, then a longer chain (too long: snapshot)
+        c(&b, &[0], 2, &[4, 3], 5),      // two deltas, then a longer chain (too long: snapshot), then the server goes back
         c(&b, &[1], 2, &[3], 5),         // one delta (update with a changed page count)
         c(&b, &[1], 4, &[4], 2),         // list too short: snapshot over an existing archive
         c(&b, &[2], 2, &[3], 5),         // not modified: only the state is touched
+        c(&b, &[0], 1, &[0, 1], 5),      // one delta, then the server presents the old version again
+        c(&b, &[0], 3, &[2, 4], 5),      // three deltas, then a version in between
         c(&s, &[0], 1, &[1, 3], 5),      // delta, then a new session
         c(&s, &[1], 2, &[2, 3], 5),      // new session: snapshot over an existing archive
         c(&s, &[2], 3, &[3], 5),         // delta in the new session
@@ -326,20 +318,27 @@ fn build_template(w: &mut World, root: &Path) -> Option<i64> {
 fn check_followup(
     w: &mut World, post: &Result<Option<LocalObs>, String>, what: &str, step: &Step,
     outcome: Outcome, seen: &str, log: &[httpsrv::Request], violated: &mut bool,
+    reverted: bool,
 ) {
     if outcome != Outcome::Updated { return }
+    // A follow-up that presents a version older than the one the killed
+    // update was moving to is outside the property's quantifier ("further
+    // server versions"); its failures are a finding of their own.
+    let cls = |base: &str| -> String {
+        if reverted { "crash-then-stale-server-view".to_string() } else { base.to_string() }
+    };
     let input = w.input.clone();
     let post = match post.clone() {
         Ok(Some(post)) => post,
         Ok(None) => {
             *violated = true;
-            w.ctx.oracle_fail("crash-updated-without-archive",
+            w.ctx.oracle_fail(&cls("crash-updated-without-archive"),
                 &format!("{what}: reported updated but there is no archive"), &input, json!({}));
             return
         }
         Err(err) => {
             *violated = true;
-            w.ctx.oracle_fail("crash-updated-archive-unreadable",
+            w.ctx.oracle_fail(&cls("crash-updated-archive-unreadable"),
                 &format!("{what}: reported updated but the archive cannot be read: {err}"), &input, json!({}));
             return
         }
@@ -358,7 +357,7 @@ fn check_followup(
     });
     if post.session != ns || post.serial != nser || want.as_ref() != Some(&post.objs) {
         *violated = true;
-        w.ctx.oracle_fail("crash-updated-content-differs",
+        w.ctx.oracle_fail(&cls("crash-updated-content-differs"),
             &format!("{what}: reported updated to {:?}/{} but archive has state {:?}/{} objects {:?}, server snapshot {:?}",
                 ns, nser, post.session, post.serial,
                 post.objs.iter().map(|(k, v)| (k.clone(), bytes_content(v))).collect::<Vec<_>>(),
@@ -367,7 +366,7 @@ fn check_followup(
     }
     else if want_seen.as_deref() != Some(seen) {
         *violated = true;
-        w.ctx.oracle_fail("crash-updated-handle-differs",
+        w.ctx.oracle_fail(&cls("crash-updated-handle-differs"),
             &format!("{what}: objects read through the repository handle [{seen}] differ from the server snapshot {want_seen:?}"),
             &input, json!({"what": what}));
     }
@@ -442,10 +441,13 @@ fn run_kill(w: &mut World, template: &Path, t_now: i64, kill: &Kill, trace: &Tra
     let mut now = now;
     let sc = w.crash.as_scenario();
     let mut last = None;
+    let mut reverted_seen = false;
     let mut carried: Option<Result<(Option<LocalObs>, bool, Option<LocalObs>), String>> = Some(left);
     for (k, idx) in w.crash.follow.iter().enumerate() {
         now += 60;
         let step = w.crash.step(*idx);
+        // Once an older version was presented, later failures follow from it.
+        if *idx < w.crash.target { reverted_seen = true; }
         let mut attempts = 0;
         loop {
             attempts += 1;
@@ -467,7 +469,7 @@ fn run_kill(w: &mut World, template: &Path, t_now: i64, kill: &Kill, trace: &Tra
                 Ok((_, _, raw)) => Ok(raw.clone()),
                 Err(err) => Err(err.clone()),
             };
-            check_followup(w, &post, &format!("follow-up {k} (attempt {attempts})"), &step, outcome, &seen, &log, &mut violated);
+            check_followup(w, &post, &format!("follow-up {k} (attempt {attempts})"), &step, outcome, &seen, &log, &mut violated, reverted_seen);
             // Model comparison of this step when the pre-state is expressible.
             if let (Ok((pre, true, _)), Ok(post)) = (&pre, &post) {
                 let draw = match post { Some(p) if p.updated == now => p.best_before - now, _ => 0 };
